@@ -103,6 +103,20 @@ def step (st : St) (t : List String) : St × String :=
     match u64? ts with
     | some ts => (st, showGate (cancelGate st.hist st.epoch ts))
     | none => (st, "bad-op")
+  | ["clk", o, z, ck, op, id, ts] =>
+    -- `op` ∈ pledge | custodian | cancel, validated by a node whose clock shows `ck`;
+    -- o = the snapshot is the validator's own, z = it carries no timestamp yet
+    match hashNat id, u64? ts, u64? ck with
+    | some id, some ts, some ck =>
+      if (o ≠ "0" ∧ o ≠ "1") ∨ (z ≠ "0" ∧ z ≠ "1") then (st, "bad-op") else
+      let self := if o = "1" then id else id + 1
+      let snapTs := if z = "1" then 0 else ts
+      match op with
+      | "pledge" => (st, showGate (pledgeGateSnap self ck st.hist st.epoch id snapTs))
+      | "custodian" => (st, showGate (custodianGateSnap self ck st.hist st.epoch id snapTs))
+      | "cancel" => (st, showGate (cancelGateSnap self ck st.hist st.epoch id snapTs))
+      | _ => (st, "bad-op")
+    | _, _, _ => (st, "bad-op")
   | ["consts"] =>
     (st, s!"ok {minNodes} {mintBegin} {mintEnd} {acceptBegin} {acceptEnd} {pledgePeriodMin} {acceptPeriodMin} {acceptPeriodMax} {electOps}")
   | _ => (st, "bad-op")
